@@ -34,7 +34,7 @@ VisibleOf(prog, cls, vals, exp) ==
     [i \in 1..Len(vals) |->
         IF vals[i].n \in DescNamesOf(prog, cls)
         THEN LET f == prog[cls].fields[CHOOSE j \in 1..Len(prog[cls].fields) : prog[cls].fields[j].name = vals[i].n]
-                 r == DescRead(f, vals, exp) IN
+                 r == DescRead(DescribeProg(prog), f, vals, exp) IN
              [n |-> vals[i].n, v |-> IF r.ok THEN r.v ELSE [t |-> "other"]]
         ELSE vals[i]]
 
